@@ -1,3 +1,6 @@
 Require Extraction. Require Import ExtrOcamlBasic.
-From GV Require Import SOHModel.
-Extraction "soh_model.ml" SOHModel.run_case.
+From Coq Require Import List ZArith.
+From GV Require Import Sched Enum SOHModel.
+Definition enum_case (cfg : list Z) (progs : list (list (list Z))) (depth budget : Z) :=
+  enum_case_gen glob loc tstep (init cfg (map decode_prog progs)) depth budget.
+Extraction "soh_model.ml" SOHModel.run_case enum_case.
